@@ -4,6 +4,7 @@ import (
 	"fmt"
 	"math/rand"
 	"os"
+	"runtime"
 	"strings"
 	"sync"
 	"sync/atomic"
@@ -56,7 +57,7 @@ type emission struct {
 }
 
 func c13(c *wk.Ctx) {
-	c.Note("rule", "each plan: a Probe object with signals tick and other; one emitter calls the generated helper with n = 0,1,2,... (each emission bracketed by logical-clock stamps) and interleaves emissions of the other signal; subscribers use the generated SubscribeTick on the same proxy, on other proxies of the same session, on other sessions, plus a raw connection doing registerEvent / unregisterEvent itself; a PRNG sequence of subscribe / cancel / emit-burst steps includes the tight schedules (two goroutines subscribing on one proxy at once with an emission right after the first returns; cancel of the last subscriber racing a new subscribe). Flow control keeps unconsumed emissions far below the 100-slot client queue. Oracle per subscriber: strictly increasing tick values only, every k emitted entirely between its acknowledgement and its cancel request is received ('missing' decided by the quiescence detector), channel closed after cancel; raw connection: no event for a registration after the unregister reply (barrier call). Stream faulty-link (shared with C14): 2-5 subscribers of the signal tick (and of the property) on own connections to a stand-alone server behind a harness listener; the link towards one of them refuses writes, or stalls in the middle of a fan-out while a later subscriber cancels: every other subscriber receives every emission once, in order. Stream bulk: 150-550 events of 5-60 KiB reach a subscriber while, on the same connection, another signal is subscribed to and cancelled over and over and a method is called (acknowledgements and replies are written between the events): every event arrives once, in order, with its payload, and the channel stays open until the cancel. Distinct non-trivial = distinct plans with at least two subscribers that each had to receive at least one emission.")
+	c.Note("rule", "each plan: a Probe object with signals tick and other; one emitter calls the generated helper with n = 0,1,2,... (each emission bracketed by logical-clock stamps) and interleaves emissions of the other signal; subscribers use the generated SubscribeTick on the same proxy, on other proxies of the same session, on other sessions, plus a raw connection doing registerEvent / unregisterEvent itself; a PRNG sequence of subscribe / cancel / emit-burst steps includes the tight schedules (two goroutines subscribing on one proxy at once with an emission right after the first returns; cancel of the last subscriber racing a new subscribe; one or two clients on fresh connections subscribing while a burst of emissions is in flight). Flow control keeps unconsumed emissions far below the 100-slot client queue. Oracle per subscriber: strictly increasing tick values only, every k emitted entirely between its acknowledgement and its cancel request is received ('missing' decided by the quiescence detector), channel closed after cancel; raw connection: no event for a registration after the unregister reply (barrier call). Stream faulty-link (shared with C14): 2-5 subscribers of the signal tick (and of the property) on own connections to a stand-alone server behind a harness listener; the link towards one of them refuses writes, or stalls in the middle of a fan-out while a later subscriber cancels: every other subscriber receives every emission once, in order. Stream bulk: 150-550 events of 5-60 KiB reach a subscriber while, on the same connection, another signal is subscribed to and cancelled over and over and a method is called (acknowledgements and replies are written between the events): every event arrives once, in order, with its payload, and the channel stays open until the cancel. Distinct non-trivial = distinct plans with at least two subscribers that each had to receive at least one emission.")
 	var w *world
 	defer func() {
 		if w != nil {
@@ -113,7 +114,7 @@ func c13one(c *wk.Ctx, i int, rng *rand.Rand, w *world, name string) {
 			proxies[k] = append(proxies[k], p)
 		}
 	}
-	var progress, siblingRaces int64
+	var progress, siblingRaces, joinedDuringEmissions int64
 	var mu sync.Mutex
 	var subs []*c13sub
 	var emissions []emission
@@ -356,7 +357,7 @@ func c13one(c *wk.Ctx, i int, rng *rand.Rand, w *world, name string) {
 	okPlan := true
 	noTight := os.Getenv("C13_NOTIGHT") != ""
 	for st := 0; st < steps && okPlan; st++ {
-		x := rng.Intn(12)
+		x := rng.Intn(13)
 		if noTight && (x == 3 || x == 4) {
 			x = 0
 		}
@@ -404,6 +405,49 @@ func c13one(c *wk.Ctx, i int, rng *rand.Rand, w *world, name string) {
 					emitOther(rng)
 				}
 			}
+			okPlan = catchUp()
+		case x == 12:
+			// one or two clients on fresh connections (hence registrations of their own at the object) subscribe
+			// WHILE a burst of emissions is in flight; whatever is emitted after a subscription was acknowledged
+			// must reach that subscriber (the emissions overlapping the subscription are not demanded)
+			var joiners []probe.ProbeProxy
+			for k := 1 + rng.Intn(2); k > 0; k-- {
+				js, err := w.session()
+				if err != nil {
+					break
+				}
+				defer js.Terminate()
+				jp, err := proxyFor(js, ps, ps.objs[0])
+				if err != nil {
+					break
+				}
+				joiners = append(joiners, jp)
+			}
+			var wg sync.WaitGroup
+			burst := 3 + rng.Intn(5)
+			wg.Add(1)
+			go func() {
+				defer wg.Done()
+				for k := 0; k < burst; k++ {
+					emit()
+				}
+			}()
+			for _, jp := range joiners {
+				jp := jp
+				yields := rng.Intn(60)
+				wg.Add(1)
+				go func() {
+					defer wg.Done()
+					for y := 0; y < yields; y++ {
+						runtime.Gosched()
+					}
+					subscribe(jp, "joining-during-emissions")
+				}()
+			}
+			wg.Wait()
+			atomic.AddInt64(&joinedDuringEmissions, int64(len(joiners)))
+			emit()
+			emit()
 			okPlan = catchUp()
 		default:
 			mu.Lock()
@@ -500,6 +544,7 @@ func c13one(c *wk.Ctx, i int, rng *rand.Rand, w *world, name string) {
 		c.Viol("plan", i, x[0], x[1], map[string]interface{}{"service": name, "sessions": nSess, "subscribers": len(all), "emissions": next, "steps": steps})
 	}
 	c.Count("races_between_two_proxies_of_one_object_in_one_session", atomic.LoadInt64(&siblingRaces))
+	c.Count("subscribers_joining_on_fresh_connections_during_a_burst_of_emissions", atomic.LoadInt64(&joinedDuringEmissions))
 	c.Count("emissions", int64(next))
 	c.Count("subscribers", int64(len(all)))
 	c.Count("raw_events", int64(len(rawEvents)))
